@@ -687,3 +687,511 @@ Proof.
   rewrite E in H. injection H as <- <-.
   split; [apply cstring_prefix; exact NF|reflexivity].
 Qed.
+
+(* ==================================================================================== *)
+(* D. the attribute table                                                               *)
+(* ==================================================================================== *)
+Lemma beq_true_iff : forall a b, beq a b = true <-> a = b.
+Proof.
+  induction a as [|x a IH]; destruct b as [|y b]; cbn [beq]; split; intro H; try congruence; try discriminate.
+  - apply andb_true_iff in H. destruct H as [H1 H2]. apply IH in H2. f_equal; [lia|exact H2].
+  - injection H as -> ->. apply andb_true_iff. split; [lia|apply IH; reflexivity].
+Qed.
+Lemma beq_refl : forall a, beq a a = true.
+Proof. intro. apply beq_true_iff. reflexivity. Qed.
+Lemma beq_false_iff : forall a b, beq a b = false <-> a <> b.
+Proof.
+  intros. destruct (beq a b) eqn:E.
+  - apply beq_true_iff in E. split; [discriminate|congruence].
+  - split; [|reflexivity]. intros _ H. apply beq_true_iff in H. congruence.
+Qed.
+Lemma beq_sym : forall a b, beq a b = beq b a.
+Proof.
+  intros. destruct (beq a b) eqn:E1; destruct (beq b a) eqn:E2; try reflexivity.
+  - apply beq_true_iff in E1. subst. rewrite beq_refl in E2. discriminate.
+  - apply beq_true_iff in E2. subst. rewrite beq_refl in E1. discriminate.
+Qed.
+
+Lemma set_nth_length : forall A n (l : list A) x, length (set_nth n l x) = length l.
+Proof.
+  intros A n l. revert n. induction l as [|y l IH]; intros n x; [destruct n; reflexivity|].
+  destruct n; cbn [set_nth length]; [reflexivity|]. rewrite IH. reflexivity.
+Qed.
+Lemma nth_set_nth_same : forall A n (l : list A) x d, (n < length l)%nat -> nth n (set_nth n l x) d = x.
+Proof.
+  intros A n l. revert n. induction l as [|y l IH]; intros n x d H; [cbn in H; lia|].
+  destruct n; cbn [set_nth nth]; [reflexivity|]. apply IH. cbn in H. lia.
+Qed.
+Lemma nth_set_nth_other : forall A n m (l : list A) x d, n <> m -> nth m (set_nth n l x) d = nth m l d.
+Proof.
+  intros A n m l. revert n m. induction l as [|y l IH]; intros n m x d H; [destruct n; reflexivity|].
+  destruct n; destruct m; cbn [set_nth nth]; try reflexivity; try congruence. apply IH. congruence.
+Qed.
+
+(* well-formed tables: the bucket array has h_len > 0 chains, every entry sits in the bucket of its
+   key, keys are distinct within a chain *)
+Definition htable_ok (t : htable) : Prop :=
+  0 < h_len t /\ length (h_entries t) = Z.to_nat (h_len t) /\
+  forall i, (i < length (h_entries t))%nat ->
+    NoDup (map fst (nth i (h_entries t) [])) /\
+    forall k v, In (k, v) (nth i (h_entries t) []) -> hash_key t k = Z.of_nat i.
+
+Lemma hash_key_range : forall t k, 0 < h_len t -> 0 <= hash_key t k < h_len t.
+Proof. intros. unfold hash_key. apply Z.mod_pos_bound. assumption. Qed.
+
+Lemma hash_key_idx : forall t k, htable_ok t -> (Z.to_nat (hash_key t k) < length (h_entries t))%nat.
+Proof. intros t k (H1 & H2 & _). pose proof (hash_key_range t k H1). lia. Qed.
+
+Lemma hash_new_ok : forall n, 0 < n -> htable_ok (hash_new n).
+Proof.
+  intros n H. unfold hash_new, htable_ok. cbn [h_len h_entries]. rewrite repeat_length.
+  split; [exact H|]. split; [reflexivity|].
+  intros i Hi. rewrite nth_repeat. split; [constructor|]. intros k v [].
+Qed.
+
+Lemma hash_get_new : forall n k, hash_get (hash_new n) k = None.
+Proof.
+  intros. unfold hash_get, bucket, hash_new. cbn [h_entries]. rewrite nth_repeat. reflexivity.
+Qed.
+
+Lemma chain_find_some_in : forall ch k v, chain_find ch k = Some v -> In (k, v) ch.
+Proof.
+  induction ch as [|[k' v'] ch IH]; intros k v H; [discriminate|].
+  cbn [chain_find] in H. destruct (beq k k') eqn:E.
+  - apply beq_true_iff in E. injection H as ->. subst. left. reflexivity.
+  - right. apply IH. exact H.
+Qed.
+Lemma chain_find_none_notin : forall ch k, chain_find ch k = None -> ~ In k (map fst ch).
+Proof.
+  induction ch as [|[k' v'] ch IH]; intros k H; [intros []|].
+  cbn [chain_find] in H. destruct (beq k k') eqn:E; [discriminate|].
+  apply beq_false_iff in E. cbn [map fst]. intros [A|A]; [congruence|]. exact (IH k H A).
+Qed.
+Lemma chain_find_in : forall ch k v, NoDup (map fst ch) -> In (k, v) ch -> chain_find ch k = Some v.
+Proof.
+  induction ch as [|[k' v'] ch IH]; intros k v ND H; [destruct H|].
+  cbn [map fst] in ND. inversion ND as [|? ? N1 N2]; subst.
+  cbn [chain_find]. destruct H as [H|H].
+  - injection H as -> ->. rewrite beq_refl. reflexivity.
+  - destruct (beq k k') eqn:E.
+    + apply beq_true_iff in E. subst. exfalso. apply N1. apply in_map_iff. exists (k', v). split; [reflexivity|exact H].
+    + apply IH; assumption.
+Qed.
+
+Lemma chain_replace_find : forall ch k v k',
+  chain_find (chain_replace ch k v) k' =
+  if beq k' k then match chain_find ch k with Some _ => Some v | None => None end else chain_find ch k'.
+Proof.
+  induction ch as [|[k0 v0] ch IH]; intros k v k'.
+  - cbn. destruct (beq k' k); reflexivity.
+  - cbn [chain_replace chain_find]. destruct (beq k k0) eqn:E.
+    + apply beq_true_iff in E. subst k0. cbn [chain_find]. destruct (beq k' k); reflexivity.
+    + cbn [chain_find]. rewrite IH. destruct (beq k' k0) eqn:E2; [|reflexivity].
+      apply beq_true_iff in E2. subst k0.
+      destruct (beq k' k) eqn:E3; [|reflexivity].
+      apply beq_true_iff in E3. subst. rewrite beq_refl in E. discriminate.
+Qed.
+Lemma chain_replace_keys : forall ch k v, map fst (chain_replace ch k v) = map fst ch.
+Proof.
+  induction ch as [|[k0 v0] ch IH]; intros k v; [reflexivity|].
+  cbn [chain_replace]. destruct (beq k k0); cbn [map fst]; [reflexivity|]. rewrite IH. reflexivity.
+Qed.
+Lemma chain_replace_in : forall ch k v k1 v1, In (k1, v1) (chain_replace ch k v) ->
+  In k1 (map fst ch).
+Proof.
+  intros. rewrite <- (chain_replace_keys ch k v). apply in_map_iff. exists (k1, v1). split; [reflexivity|assumption].
+Qed.
+
+Lemma bucket_set_same : forall t i ch, (i < length (h_entries t))%nat ->
+  nth i (set_nth i (h_entries t) ch) [] = ch.
+Proof. intros. apply nth_set_nth_same. assumption. Qed.
+
+Lemma hash_key_mk : forall t e k, hash_key (mkH (h_len t) e) k = hash_key t k.
+Proof. reflexivity. Qed.
+
+Lemma hash_get_add : forall t k v k', htable_ok t ->
+  hash_get (hash_add t k v) k' = if beq k' k then Some v else hash_get t k'.
+Proof.
+  intros t k v k' OK. pose proof (hash_key_idx t k OK) as Hi.
+  unfold hash_add, hash_get at 1. unfold bucket.
+  destruct (chain_find (nth (Z.to_nat (hash_key t k)) (h_entries t) []) k) eqn:F;
+    cbn [h_entries]; rewrite hash_key_mk.
+  - destruct (Nat.eq_dec (Z.to_nat (hash_key t k)) (Z.to_nat (hash_key t k'))) as [E|E].
+    + rewrite <- E. rewrite nth_set_nth_same by exact Hi. rewrite chain_replace_find, F.
+      destruct (beq k' k); [reflexivity|]. unfold hash_get, bucket. rewrite <- E. reflexivity.
+    + rewrite nth_set_nth_other by exact E.
+      destruct (beq k' k) eqn:B; [apply beq_true_iff in B; subst; congruence|]. reflexivity.
+  - destruct (Nat.eq_dec (Z.to_nat (hash_key t k)) (Z.to_nat (hash_key t k'))) as [E|E].
+    + rewrite <- E. rewrite nth_set_nth_same by exact Hi. cbn [chain_find].
+      destruct (beq k' k); [reflexivity|]. unfold hash_get, bucket. rewrite <- E. reflexivity.
+    + rewrite nth_set_nth_other by exact E.
+      destruct (beq k' k) eqn:B; [apply beq_true_iff in B; subst; congruence|]. reflexivity.
+Qed.
+
+Lemma hash_add_ok : forall t k v, htable_ok t -> htable_ok (hash_add t k v).
+Proof.
+  intros t k v OK. pose proof (hash_key_idx t k OK) as Hi.
+  destruct OK as (H1 & H2 & H3). pose proof (hash_key_range t k H1) as HR.
+  unfold hash_add, bucket.
+  destruct (chain_find (nth (Z.to_nat (hash_key t k)) (h_entries t) []) k) eqn:F;
+    unfold htable_ok; cbn [h_len h_entries]; rewrite set_nth_length;
+    (split; [exact H1|]); (split; [exact H2|]); intros i Hl;
+    destruct (Nat.eq_dec (Z.to_nat (hash_key t k)) i) as [E|E].
+  - subst i. rewrite nth_set_nth_same by exact Hi. destruct (H3 _ Hi) as (N & K).
+    rewrite chain_replace_keys. split; [exact N|].
+    intros k1 v1 HI. rewrite hash_key_mk.
+    apply chain_replace_in in HI. apply in_map_iff in HI. destruct HI as ([k2 v2] & E2 & HI). cbn in E2. subst k2.
+    apply (K k1 v2 HI).
+  - rewrite nth_set_nth_other by exact E. destruct (H3 _ Hl) as (N & K). split; [exact N|].
+    intros k1 v1 HI. rewrite hash_key_mk. apply (K k1 v1 HI).
+  - subst i. rewrite nth_set_nth_same by exact Hi. destruct (H3 _ Hi) as (N & K).
+    split.
+    + cbn [map fst]. constructor; [apply chain_find_none_notin; exact F|exact N].
+    + intros k1 v1 [HI|HI]; rewrite hash_key_mk.
+      * injection HI as <- <-. lia.
+      * apply (K k1 v1 HI).
+  - rewrite nth_set_nth_other by exact E. destruct (H3 _ Hl) as (N & K). split; [exact N|].
+    intros k1 v1 HI. rewrite hash_key_mk. apply (K k1 v1 HI).
+Qed.
+
+Lemma chain_remove_spec : forall ch k ch', NoDup (map fst ch) -> chain_remove ch k = Some ch' ->
+  (forall k', chain_find ch' k' = if beq k' k then None else chain_find ch k') /\
+  NoDup (map fst ch') /\ (forall kv, In kv ch' -> In kv ch).
+Proof.
+  induction ch as [|[k0 v0] ch IH]; intros k ch' ND H; [discriminate|].
+  cbn [map fst] in ND. inversion ND as [|? ? N1 N2]; subst.
+  cbn [chain_remove] in H. destruct (beq k k0) eqn:E.
+  - injection H as <-. apply beq_true_iff in E. subst k0. repeat split; [|exact N2|intros; right; assumption].
+    intro k'. cbn [chain_find]. destruct (beq k' k) eqn:E2; [|reflexivity].
+    apply beq_true_iff in E2. subst k'.
+    destruct (chain_find ch k) eqn:F; [|reflexivity].
+    apply chain_find_some_in in F. exfalso. apply N1. apply in_map_iff. exists (k, b). split; [reflexivity|exact F].
+  - destruct (chain_remove ch k) as [r'|] eqn:R; [|discriminate]. injection H as <-.
+    destruct (IH k r' N2 R) as (A & B & C). repeat split.
+    + intro k'. cbn [chain_find]. rewrite A. destruct (beq k' k0) eqn:E2; [|reflexivity].
+      apply beq_true_iff in E2. subst k'. rewrite beq_sym, E. reflexivity.
+    + cbn [map fst]. constructor; [|exact B]. intro HI. apply N1.
+      apply in_map_iff in HI. destruct HI as (kv & E1 & HI). apply in_map_iff. exists kv. split; [exact E1|apply C; exact HI].
+    + intros kv [HI|HI]; [left; exact HI|right; apply C; exact HI].
+Qed.
+
+Lemma chain_remove_none : forall ch k, chain_remove ch k = None -> chain_find ch k = None.
+Proof.
+  induction ch as [|[k0 v0] ch IH]; intros k H; [reflexivity|].
+  cbn [chain_remove] in H. cbn [chain_find]. destruct (beq k k0); [discriminate|].
+  destruct (chain_remove ch k) eqn:R; [discriminate|]. apply IH. exact R.
+Qed.
+
+Lemma hash_drop_spec : forall t k, htable_ok t ->
+  htable_ok (fst (hash_drop t k)) /\
+  forall k', hash_get (fst (hash_drop t k)) k' = if beq k' k then None else hash_get t k'.
+Proof.
+  intros t k OK. pose proof (hash_key_idx t k OK) as Hi.
+  pose proof OK as (H1 & H2 & H3).
+  unfold hash_drop, bucket.
+  destruct (chain_remove (nth (Z.to_nat (hash_key t k)) (h_entries t) []) k) as [ch'|] eqn:R; cbn [fst].
+  - destruct (H3 _ Hi) as (N & K).
+    destruct (chain_remove_spec _ _ _ N R) as (A & B & C). split.
+    + unfold htable_ok. cbn [h_len h_entries]. rewrite set_nth_length.
+      split; [exact H1|]. split; [exact H2|]. intros i Hl.
+      destruct (Nat.eq_dec (Z.to_nat (hash_key t k)) i) as [E|E].
+      * subst i. rewrite nth_set_nth_same by exact Hi. split; [exact B|].
+        intros k1 v1 HI. rewrite hash_key_mk. apply (K k1 v1). apply C. exact HI.
+      * rewrite nth_set_nth_other by exact E. destruct (H3 _ Hl) as (N' & K'). split; [exact N'|].
+        intros k1 v1 HI. rewrite hash_key_mk. apply (K' k1 v1 HI).
+    + intro k'. unfold hash_get at 1. unfold bucket. cbn [h_entries]. rewrite hash_key_mk.
+      destruct (Nat.eq_dec (Z.to_nat (hash_key t k)) (Z.to_nat (hash_key t k'))) as [E|E].
+      * rewrite <- E. rewrite nth_set_nth_same by exact Hi. rewrite A.
+        destruct (beq k' k); [reflexivity|]. unfold hash_get, bucket. rewrite <- E. reflexivity.
+      * rewrite nth_set_nth_other by exact E.
+        destruct (beq k' k) eqn:B'; [apply beq_true_iff in B'; subst; congruence|]. reflexivity.
+  - split; [exact OK|]. intro k'. destruct (beq k' k) eqn:B; [|reflexivity].
+    apply beq_true_iff in B. subst k'. unfold hash_get, bucket. apply chain_remove_none. exact R.
+Qed.
+
+(* enumeration and lookup agree *)
+Lemma hash_items_in : forall t k v, In (k, v) (hash_items t) <->
+  exists i, (i < length (h_entries t))%nat /\ In (k, v) (nth i (h_entries t) []).
+Proof.
+  intros t k v. unfold hash_items. rewrite in_concat. split.
+  - intros (ch & H1 & H2). apply In_nth with (d := []) in H1. destruct H1 as (i & Hi & E).
+    exists i. split; [exact Hi|]. rewrite E. exact H2.
+  - intros (i & Hi & H). exists (nth i (h_entries t) []). split; [apply nth_In; exact Hi|exact H].
+Qed.
+
+Lemma hash_get_items : forall t k v, htable_ok t -> (hash_get t k = Some v <-> In (k, v) (hash_items t)).
+Proof.
+  intros t k v OK. pose proof (hash_key_idx t k OK) as Hi. pose proof OK as (H1 & H2 & H3).
+  rewrite hash_items_in. unfold hash_get, bucket. split.
+  - intro F. exists (Z.to_nat (hash_key t k)). split; [exact Hi|]. apply chain_find_some_in. exact F.
+  - intros (i & Hl & HI). destruct (H3 _ Hl) as (N & K). pose proof (K k v HI) as E.
+    rewrite E, Nat2Z.id. apply chain_find_in; assumption.
+Qed.
+
+Lemma hash_keys_found : forall t k, htable_ok t -> (In k (hash_keys t) <-> exists v, hash_get t k = Some v).
+Proof.
+  intros t k OK. unfold hash_keys. rewrite in_map_iff. split.
+  - intros ([k' v] & E & HI). cbn in E. subst k'. exists v. apply hash_get_items; assumption.
+  - intros (v & F). exists (k, v). split; [reflexivity|]. apply hash_get_items; assumption.
+Qed.
+
+(* attribute sets of stanzas *)
+Definition attrs_ok (a : attrs) : Prop := match a with Some t => htable_ok t | None => True end.
+
+Lemma attr_hash_size_pos : 0 < attr_hash_size. Proof. apply Gen_stanza_ok. Qed.
+
+Lemma attr_set_ok : forall a k v, attrs_ok a -> attrs_ok (attr_set a k v).
+Proof.
+  intros [t|] k v H; cbn [attr_set attrs_ok]; apply hash_add_ok; [exact H|apply hash_new_ok; apply attr_hash_size_pos].
+Qed.
+Lemma attr_get_set : forall a k v k', attrs_ok a ->
+  attr_get (attr_set a k v) k' = if beq k' k then Some v else attr_get a k'.
+Proof.
+  intros [t|] k v k' H; cbn [attr_set attr_get].
+  - apply hash_get_add. exact H.
+  - rewrite hash_get_add by (apply hash_new_ok; apply attr_hash_size_pos). rewrite hash_get_new. reflexivity.
+Qed.
+Lemma attr_del_ok : forall a k, attrs_ok a -> attrs_ok (fst (attr_del a k)).
+Proof.
+  intros [t|] k H; cbn [attr_del]; [|exact I].
+  pose proof (hash_drop_spec t k H) as (A & _). destruct (hash_drop t k). exact A.
+Qed.
+Lemma attr_get_del : forall a k k', attrs_ok a ->
+  attr_get (fst (attr_del a k)) k' = if beq k' k then None else attr_get a k'.
+Proof.
+  intros [t|] k k' H; cbn [attr_del].
+  - pose proof (hash_drop_spec t k H) as (_ & B). specialize (B k'). destruct (hash_drop t k). exact B.
+  - cbn. destruct (beq k' k); reflexivity.
+Qed.
+
+(* tables built through the API are renderable as far as lookups go *)
+Lemma attrs_built_found : forall a, attrs_ok a ->
+  match a with
+  | Some h => forall k, In k (hash_keys h) -> exists v, hash_get h k = Some v
+  | None => True
+  end.
+Proof. intros [h|] H; [|exact I]. intros k HI. apply hash_keys_found; assumption. Qed.
+
+(* ==================================================================================== *)
+(* E. copy, reply, reply_error, error_new                                               *)
+(* ==================================================================================== *)
+Inductive tree_wf : tree -> Prop :=
+| wf_unk : tree_wf Unk
+| wf_text : forall s, tree_wf (Text s)
+| wf_tag : forall name a cs, attrs_ok a -> Forall tree_wf cs -> tree_wf (Tag name a cs).
+
+(* same node types, names, text, child order; the same attribute *set* (enumeration order may differ) *)
+Inductive tree_equiv : tree -> tree -> Prop :=
+| te_unk : tree_equiv Unk Unk
+| te_text : forall s, tree_equiv (Text s) (Text s)
+| te_tag : forall name a a' cs cs',
+    (forall k, attr_get a' k = attr_get a k) -> attrs_ok a' ->
+    Forall2 tree_equiv cs cs' -> tree_equiv (Tag name a cs) (Tag name a' cs').
+
+Lemma copy_attrs_loop_spec : forall src keys dst, htable_ok src -> attrs_ok dst ->
+  (forall k, In k keys -> exists v, hash_get src k = Some v) ->
+  exists a', copy_attrs_loop src keys dst = Some a' /\ attrs_ok a' /\
+             forall k, (In k keys -> attr_get a' k = hash_get src k) /\
+                       (~ In k keys -> attr_get a' k = attr_get dst k).
+Proof.
+  intros src keys. induction keys as [|k0 r IH]; intros dst OK OD F.
+  - exists dst. split; [reflexivity|]. split; [exact OD|]. intro k. split; [intros []|reflexivity].
+  - cbn [copy_attrs_loop]. destruct (F k0 (or_introl eq_refl)) as (v0 & E0). rewrite E0.
+    destruct (IH (attr_set dst k0 v0) OK (attr_set_ok _ _ _ OD)) as (a' & E & OA & G).
+    { intros k Hk. apply F. right. exact Hk. }
+    exists a'. split; [exact E|]. split; [exact OA|].
+    intro k. destruct (G k) as (G1 & G2). split.
+    + intros [<-|Hk].
+      * destruct (in_dec (list_eq_dec Z.eq_dec) k0 r) as [I|I]; [rewrite G1 by exact I; reflexivity|].
+        rewrite G2 by exact I. rewrite attr_get_set by exact OD. rewrite beq_refl. symmetry. exact E0.
+      * apply G1. exact Hk.
+    + intro N. rewrite G2 by (intro; apply N; right; assumption).
+      rewrite attr_get_set by exact OD.
+      destruct (beq k k0) eqn:B; [|reflexivity].
+      apply beq_true_iff in B. subst. exfalso. apply N. left. reflexivity.
+Qed.
+
+Lemma copy_attrs_spec : forall a, attrs_ok a ->
+  exists a', copy_attrs a = Some a' /\ attrs_ok a' /\ forall k, attr_get a' k = attr_get a k.
+Proof.
+  intros [h|] OK; cbn [copy_attrs].
+  - destruct (copy_attrs_loop_spec h (hash_keys h) None OK I) as (a' & E & OA & G).
+    { intros k Hk. apply hash_keys_found; assumption. }
+    exists a'. split; [exact E|]. split; [exact OA|]. intro k. destruct (G k) as (G1 & G2). cbn [attr_get].
+    destruct (in_dec (list_eq_dec Z.eq_dec) k (hash_keys h)) as [HI|HI]; [apply G1; exact HI|].
+    rewrite G2 by exact HI. cbn [attr_get].
+    destruct (hash_get h k) eqn:F; [|reflexivity].
+    exfalso. apply HI. apply hash_keys_found; [exact OK|]. exists b. exact F.
+  - exists None. split; [reflexivity|]. split; [exact I|]. reflexivity.
+Qed.
+
+Definition copy_list := fix go (cs : list tree) : option (list tree) :=
+  match cs with
+  | [] => Some []
+  | ch :: r =>
+      match copy_tree ch with
+      | None => None
+      | Some ch' => match go r with Some r' => Some (ch' :: r') | None => None end
+      end
+  end.
+
+Lemma copy_tree_tag : forall name a cs,
+  copy_tree (Tag name a cs) =
+  match copy_attrs a with
+  | None => None
+  | Some a' => match copy_list cs with None => None | Some cs' => Some (Tag name a' cs') end
+  end.
+Proof. reflexivity. Qed.
+
+(* xmpp_stanza_copy never fails on a well-formed tree and yields an equal tree *)
+Lemma copy_tree_spec : forall t, tree_wf t -> exists t', copy_tree t = Some t' /\ tree_equiv t t' /\ tree_wf t'.
+Proof.
+  induction t as [|s|name a cs IH] using tree_ind2; intro W.
+  - exists Unk. repeat split; constructor.
+  - exists (Text s). repeat split; constructor.
+  - inversion W as [| |? ? ? OA WC]; subst.
+    rewrite copy_tree_tag.
+    destruct (copy_attrs_spec a OA) as (a' & -> & OA' & G).
+    assert (HC : exists cs', copy_list cs = Some cs' /\ Forall2 tree_equiv cs cs' /\ Forall tree_wf cs').
+    { clear W. induction cs as [|ch r IHr]; [exists []; repeat split; constructor|].
+      inversion IH as [|? ? I1 I2]; subst. inversion WC as [|? ? W1 W2]; subst.
+      destruct (I1 W1) as (ch' & E1 & Q1 & V1). destruct (IHr I2 W2) as (r' & E2 & Q2 & V2).
+      exists (ch' :: r'). cbn [copy_list]. rewrite E1. fold copy_list. rewrite E2.
+      repeat split; constructor; assumption. }
+    destruct HC as (cs' & -> & Q & V).
+    exists (Tag name a' cs'). repeat split; constructor; assumption.
+Qed.
+
+(* copying twice gives the same text as copying once would suggest: equal trees have equal canonical
+   content; here: the relation is an equivalence on the attribute sets *)
+Lemma tree_equiv_attr : forall t t' k, tree_equiv t t' -> tree_attr t' k = tree_attr t k.
+Proof. intros t t' k H. inversion H; subst; cbn [tree_attr]; auto. Qed.
+
+(* ---- reply ---- *)
+Definition only_attr (a : attrs) (k v : bstr) : Prop :=
+  forall k', attr_get a k' = if beq k' k then Some v else None.
+
+Lemma only_attr_set : forall k v, only_attr (attr_set None k v) k v.
+Proof. intros k v k'. rewrite attr_get_set by exact I. reflexivity. Qed.
+
+Lemma reply_deleted_eq : reply_deleted = [k_to; k_from; xmlns_key].
+Proof. destruct Gen_stanza_ok as (_ & _ & _ & _ & E & _ & _ & _ & _ & R & _). rewrite R, E. reflexivity. Qed.
+
+Lemma stanza_reply_spec : forall name a cs, attrs_ok a ->
+  match attr_get a k_from with
+  | None => stanza_reply (Tag name a cs) = None
+  | Some from =>
+      exists a', stanza_reply (Tag name a cs) = Some (Tag name a' []) /\ attrs_ok a' /\
+        attr_get a' k_to = Some from /\ attr_get a' k_from = None /\ attr_get a' xmlns_key = None /\
+        forall k, k <> k_to -> k <> k_from -> k <> xmlns_key -> attr_get a' k = attr_get a k
+  end.
+Proof.
+  intros name a cs OK. unfold stanza_reply. cbn [tree_attr].
+  destruct (attr_get a k_from) as [from|] eqn:F; [|reflexivity].
+  destruct (copy_attrs_spec a OK) as (a1 & -> & O1 & G).
+  rewrite reply_deleted_eq. cbn [fold_left].
+  set (d1 := fst (attr_del a1 k_to)). set (d2 := fst (attr_del d1 k_from)). set (d3 := fst (attr_del d2 xmlns_key)).
+  assert (O2 : attrs_ok d1) by (apply attr_del_ok; exact O1).
+  assert (O3 : attrs_ok d2) by (apply attr_del_ok; exact O2).
+  assert (O4 : attrs_ok d3) by (apply attr_del_ok; exact O3).
+  exists (attr_set d3 k_to from). split; [reflexivity|]. split; [apply attr_set_ok; exact O4|].
+  assert (X : xmlns_key = xmlns_name) by apply Gen_stanza_ok.
+  repeat split.
+  - rewrite attr_get_set by exact O4. rewrite beq_refl. reflexivity.
+  - rewrite attr_get_set by exact O4. replace (beq k_from k_to) with false by reflexivity.
+    subst d3. rewrite attr_get_del by exact O3. rewrite X. replace (beq k_from xmlns_name) with false by reflexivity.
+    subst d2. rewrite attr_get_del by exact O2. rewrite beq_refl. reflexivity.
+  - rewrite attr_get_set by exact O4. rewrite X. replace (beq xmlns_name k_to) with false by reflexivity.
+    subst d3. rewrite attr_get_del by exact O3. rewrite X, beq_refl. reflexivity.
+  - intros k N1 N2 N3. rewrite attr_get_set by exact O4.
+    apply beq_false_iff in N1, N2, N3. rewrite N1.
+    subst d3. rewrite attr_get_del by exact O3. rewrite N3.
+    subst d2. rewrite attr_get_del by exact O2. rewrite N2.
+    subst d1. rewrite attr_get_del by exact O1. rewrite N1. apply G.
+Qed.
+
+Lemma stanza_reply_not_tag : stanza_reply Unk = None /\ forall s, stanza_reply (Text s) = None.
+Proof. split; reflexivity. Qed.
+
+Lemma lits_eq : lit 0 = s_error /\ lit 1 = s_error /\ lit 2 = rfc_ns_stanzas /\ lit 3 = s_text /\ lit 4 = rfc_ns_stanzas.
+Proof.
+  destruct Gen_stanza_ok as (_ & _ & _ & _ & _ & _ & _ & _ & _ & _ & R & _).
+  unfold lit. rewrite R. repeat split.
+Qed.
+
+(* RFC 6120 8.3: type='error', addressed back, <error type=..> holding the condition element qualified by
+   the stanzas namespace and, when a description is given, <text> in the same namespace *)
+Lemma stanza_reply_error_spec : forall name a cs ty cond text, attrs_ok a ->
+  match attr_get a k_from with
+  | None => stanza_reply_error (Tag name a cs) ty cond text = None
+  | Some from =>
+      exists a' ea ca ta,
+        stanza_reply_error (Tag name a cs) ty cond text =
+          Some (Tag name a'
+                  [Tag s_error ea
+                     (Tag cond ca [] ::
+                      match text with Some x => [Tag s_text ta [Text x]] | None => [] end)]) /\
+        attrs_ok a' /\
+        attr_get a' k_type = Some s_error /\
+        attr_get a' k_to = Some from /\
+        attr_get a' k_from = attr_get a k_to /\
+        attr_get a' xmlns_key = None /\
+        (forall k, k <> k_to -> k <> k_from -> k <> xmlns_key -> k <> k_type -> attr_get a' k = attr_get a k) /\
+        only_attr ea k_type ty /\ only_attr ca xmlns_key rfc_ns_stanzas /\ only_attr ta xmlns_key rfc_ns_stanzas
+  end.
+Proof.
+  intros name a cs ty cond text OK. unfold stanza_reply_error.
+  pose proof (stanza_reply_spec name a cs OK) as R.
+  destruct (attr_get a k_from) as [from|] eqn:F; [|rewrite R; reflexivity].
+  destruct R as (a0 & -> & O0 & G1 & G2 & G3 & G4).
+  destruct lits_eq as (L0 & L1 & L2 & L3 & L4). rewrite L0, L1, L2, L3, L4.
+  cbn [tree_attr].
+  set (a1 := attr_set a0 k_type s_error).
+  assert (O1 : attrs_ok a1) by (apply attr_set_ok; exact O0).
+  assert (X : xmlns_key = xmlns_name) by apply Gen_stanza_ok.
+  exists (match attr_get a k_to with Some to => attr_set a1 k_from to | None => a1 end),
+         (attr_set None k_type ty), (attr_set None xmlns_key rfc_ns_stanzas), (attr_set None xmlns_key rfc_ns_stanzas).
+  split; [destruct text; reflexivity|].
+  destruct (attr_get a k_to) as [to|] eqn:T.
+  - assert (O2 : attrs_ok (attr_set a1 k_from to)) by (apply attr_set_ok; exact O1).
+    split; [exact O2|]. repeat split; try apply only_attr_set.
+    + rewrite attr_get_set by exact O1. replace (beq k_type k_from) with false by reflexivity.
+      subst a1. rewrite attr_get_set by exact O0. rewrite beq_refl. reflexivity.
+    + rewrite attr_get_set by exact O1. replace (beq k_to k_from) with false by reflexivity.
+      subst a1. rewrite attr_get_set by exact O0. replace (beq k_to k_type) with false by reflexivity. exact G1.
+    + rewrite attr_get_set by exact O1. rewrite beq_refl. reflexivity.
+    + rewrite attr_get_set by exact O1. rewrite X. replace (beq xmlns_name k_from) with false by reflexivity.
+      subst a1. rewrite attr_get_set by exact O0. replace (beq xmlns_name k_type) with false by reflexivity.
+      rewrite <- X. exact G3.
+    + intros k N1 N2 N3 N4. rewrite attr_get_set by exact O1.
+      pose proof N2 as N2'. apply beq_false_iff in N2'. rewrite N2'.
+      subst a1. rewrite attr_get_set by exact O0.
+      pose proof N4 as N4'. apply beq_false_iff in N4'. rewrite N4'. apply G4; assumption.
+  - split; [exact O1|]. repeat split; try apply only_attr_set.
+    + subst a1. rewrite attr_get_set by exact O0. rewrite beq_refl. reflexivity.
+    + subst a1. rewrite attr_get_set by exact O0. replace (beq k_to k_type) with false by reflexivity. exact G1.
+    + subst a1. rewrite attr_get_set by exact O0. replace (beq k_from k_type) with false by reflexivity. exact G2.
+    + subst a1. rewrite attr_get_set by exact O0. rewrite X. replace (beq xmlns_name k_type) with false by reflexivity.
+      rewrite <- X. exact G3.
+    + intros k N1 N2 N3 N4. subst a1. rewrite attr_get_set by exact O0.
+      pose proof N4 as N4'. apply beq_false_iff in N4'. rewrite N4'. apply G4; assumption.
+Qed.
+
+(* xmpp_error_new: <stream:error> holding the RFC 6120 4.9.3 condition for the enumerator (the default for
+   values outside the enumeration), qualified by the streams namespace, and the optional <text> *)
+Lemma error_new_spec : forall ty text,
+  exists ca ta,
+    error_new ty text =
+      Tag s_stream_error None
+        (Tag (if (0 <=? ty) && (ty <? zlen rfc_stream_conditions)
+              then nth (Z.to_nat ty) rfc_stream_conditions stream_error_default else stream_error_default) ca [] ::
+         match text with Some x => [Tag s_text ta [Text x]] | None => [] end) /\
+    only_attr ca xmlns_key rfc_ns_streams /\ only_attr ta xmlns_key rfc_ns_streams /\
+    In stream_error_default rfc_stream_conditions.
+Proof.
+  intros ty text.
+  destruct Gen_stanza_ok as (_ & _ & _ & _ & _ & _ & _ & _ & _ & _ & _ & E1 & E2 & E3 & E4 & E5).
+  exists (attr_set None xmlns_key rfc_ns_streams), (attr_set None xmlns_key rfc_ns_streams).
+  split; [|repeat split; try apply only_attr_set; exact E5].
+  unfold error_new. rewrite E1, E2, E3, E4. destruct text; reflexivity.
+Qed.
